@@ -325,6 +325,9 @@ func aliasCheck(st *aliasState, c aliasCase, step int, recv *hist.Handle, a *his
 			return err
 		}
 	}
+	if err := checkNames(st.Root, "the root", step, r); err != nil {
+		return err
+	}
 	if recv != nil && a != nil {
 		if err := checkRead(st.State, *recv, *a, step, r); err != nil {
 			return err
@@ -620,7 +623,7 @@ var subAlias = runlog.Register(&runlog.Sub[aliasCase]{
 	Rule: "histories of 3-12 (thorough: 3-18) operations Set*, Remove, Child (handle pooled), SetChild and NewFrom (stand-alone config pooled) on the root and (40%) on pooled handles, where SetChild is given (70% once the pool is not empty) a POOLED config: a handle obtained with Child, a config an earlier SetChild attached (the caller's own variable, pooled as it is), a stand-alone or detached config - so that one config is stored at two or more addresses (of the root, of lists, of other pooled configs, onto its own place) - or a fresh config built from a tree (objects and top-level lists). " +
 		"13 in 20 operations after a SetChild are a write or removal below the place just attached: by the longer address through the same receiver, through the attached config itself, or at a drawn address through any handle. An attach that would put a config below itself is skipped (a tree stays a tree). No Merge (documented to copy); 3 of 4 cases with PathSep (1 in 5 of them with another separator); half start from a random tree. " +
 		"Model: the plain tree of the main sub-check (model.Node) with the node SHARED BY POINTER between all the addresses it was stored at and all handles: a dictionary stored at two addresses is one dictionary, so a write or removal through any address or handle shows at every address (the statement: 'agrees with a plain tree ... subjected to the same operations', 'a child config is a live view whose writes are visible through the parent'); removing or overwriting it at one address leaves the others. " +
-		"After every step: the generic dump, IsDict/IsArray and CountField of the root and of EVERY pooled config equal the model (frame condition over all addresses), library and model agree on success/failure and on the result of Remove, and the step's address, one fixed address through the root and one through a pooled handle are read through every getter, Has and Child by all equivalent routes (checkRead of the main sub-check). Path/Parent are not read (C15, D14). " +
+		"After every step: the generic dump, IsDict/IsArray and CountField of the root and of EVERY pooled config equal the model (frame condition over all addresses), the name queries of the main sub-check (HasField, GetFields, CountField(name) with and without PathSep: literal top-level lookup; names that are paths or indices of existing settings but no named key count nothing) hold for the root, library and model agree on success/failure and on the result of Remove, and the step's address, one fixed address through the root and one through a pooled handle are read through every getter, Has and Child by all equivalent routes (checkRead of the main sub-check). Path/Parent are not read (C15, D14). " +
 		"Non-trivial: a write or removal changed a node that is stored at two or more addresses of the root at that moment. Distinct: hash of the whole case.",
 	Journal: true,
 	Gen:     genAliasCase,
